@@ -64,6 +64,7 @@ def references_piece(element):
 LIST_SDV = Inst(list_sdv.ListSdv, _elements=ListOf(Iface(ElementSdvI)))
 
 M.contract(P_LSDV + ':ListSdv.resolve', params=dict(self=LIST_SDV, symbols=Iface(TableI)),
+           returns=Inst(list_ddv.ListDdv, _string_elements=ListOf(Iface(ItemI))),
            ensures={
                'a ListDdv': lambda result: type(result) is list_ddv.ListDdv,
                'lists by splicing in elements: the in-order concatenation of what each element resolves to (against '
